@@ -75,6 +75,8 @@ NS: Dict[str, Any] = {}
 _COUNTER = itertools.count(0)
 _LAST: Dict[str, Any] = {}
 ENUM_STATS: List[dict] = []
+COARSE = set()
+PREEMPT_STATS: Dict[str, int] = {}
 
 
 def setup(tier):
@@ -85,7 +87,15 @@ def setup(tier):
     m = W.m
     si = W.modules.get("si") or W.load("si")
     for cls_name in CLASSES:
-        win = sched.find_window(getattr(m, cls_name))
+        try:
+            win = sched.find_window(getattr(m, cls_name))
+        except sched.HarnessDeadlock:
+            # the interning code does not have the recognisable check-then-insert shape (it was
+            # refactored): fall back to the whole __new__ body as the window; the window-mode
+            # enumeration is then skipped for this class and the preemption-bounded enumeration
+            # (which does not depend on the source's shape) carries the exhaustive part
+            win = sched.coarse_window(getattr(m, cls_name))
+            COARSE.add(cls_name)
         WINDOWS[win.code] = win
     TARGET = next(iter(WINDOWS)).co_filename
     NS.update(
@@ -419,7 +429,33 @@ def enumerate_cases(tier):
     who inserted first)."""
     setup(tier)
     del ENUM_STATS[:]
+    # ---- preemption-bounded enumeration (independent of the shape of the source): thread 0
+    # runs k traced lines, then thread 1 runs to completion, then thread 0 finishes -- for
+    # every k up to the length of the thunk, and with the roles swapped; in the thorough tier
+    # also every (k1, k2) two-preemption schedule
+    PREEMPT_STATS.clear()
+    for kind in KINDS2:
+        probe = {"kind": kind, "schedule": [0] * 600, "mode": "line"}
+        yield probe
+        if _LAST.get("case") != core.canon(probe):
+            run_case(probe)
+        length = min(len(_LAST.get("decisions") or []) or 80, 160)
+        n = 0
+        for first in (0, 1):
+            for k in range(0, length + 1):
+                yield {"kind": kind, "schedule": [first] * k + [1 - first] * 600, "mode": "line"}
+                n += 1
+        if tier == "thorough":
+            for k1 in range(1, min(length, 60), 2):
+                for k2 in range(1, min(length, 60), 2):
+                    yield {"kind": kind, "schedule": [0] * k1 + [1] * k2 + [0] * 600, "mode": "line"}
+                    n += 1
+        PREEMPT_STATS[kind] = n
     for kind, focus in (ENUM[:QUICK_ENUM] if tier == "quick" else ENUM):
+        if focus in COARSE:
+            ENUM_STATS.append({"kind": kind, "focus": f"{focus}.__new__", "window": None, "interleavings": 0, "complete": False,
+                               "capped_at": None, "skipped": "check-then-insert shape not recognised in the source"})
+            continue
         tree = sched.ScheduleTree(limit=200000)
         # the quick tier walks at most QUICK_LEAVES leaves of each tree (depth-first order);
         # the thorough tier always completes the enumeration
@@ -445,6 +481,8 @@ def enumerate_cases(tier):
 
 def post(tier, col):
     col.extra["exhaustive_subspaces"] = [dict(s) for s in ENUM_STATS]
+    col.extra["preemption_bounded_schedules"] = dict(PREEMPT_STATS)
+    col.extra["windows_not_recognised"] = sorted(COARSE)
     col.extra["exhaustive_subspace_rule"] = (
         "two threads; decision points = thread start and every line from the membership test to the "
         "insertion (inclusive) of the focus class's __new__; all other lines run without a switch; "
@@ -459,7 +497,7 @@ def vacuity(col):
         if not col.classes.get(f"switch-inside:{c}.__new__"):
             missing.append(f"no schedule switched threads inside {c}.__new__'s check-then-insert window")
     for s in ENUM_STATS:
-        if not s["complete"] and not s.get("capped_at"):
+        if not s["complete"] and not s.get("capped_at") and not s.get("skipped"):
             missing.append(f"exhaustive enumeration of {s['kind']}/{s['focus']} did not complete")
     if not ENUM_STATS:
         missing.append("exhaustive enumeration did not run")
